@@ -237,6 +237,12 @@ func gofastaBin() string {
 }
 
 func runBinary(bin string, stdin []byte, env []string, deadline time.Duration, args ...string) binResult {
+	return runBinaryTo("", bin, stdin, env, deadline, args...)
+}
+
+// runBinaryTo is runBinary with standard output connected directly to a file (so that a write
+// fault injected on that file hits the process's own write(2) calls).
+func runBinaryTo(stdoutPath, bin string, stdin []byte, env []string, deadline time.Duration, args ...string) binResult {
 	cmd := exec.Command(bin, args...)
 	cmd.Env = append(os.Environ(), env...)
 	if stdin != nil {
@@ -244,6 +250,14 @@ func runBinary(bin string, stdin []byte, env []string, deadline time.Duration, a
 	}
 	var so, se bytes.Buffer
 	cmd.Stdout = &so
+	if stdoutPath != "" {
+		f, err := os.Create(stdoutPath)
+		if err != nil {
+			die("%v", err)
+		}
+		defer f.Close()
+		cmd.Stdout = f
+	}
 	cmd.Stderr = &se
 	if err := cmd.Start(); err != nil {
 		die("start %s: %v", bin, err)
